@@ -34,6 +34,10 @@ import (
 
 const stakePeriod = 12 // update-stakes / pay-rewards period used by the harness
 
+// InitialHeight of the harness chains: above 10197360 so that LockStake is available, and
+// > 1 as every exported genesis is.
+const InitialHeight = 10200001
+
 type Acct struct {
 	Key  *ecdsa.PrivateKey
 	Addr types.Address
@@ -205,7 +209,7 @@ func newNode(spec *GenesisSpec) *Node {
 	n.Cfg.DBBackend = "goleveldb"
 	n.Cfg.KeepLastStates = 100000
 	n.start()
-	n.initChain(st, 100)
+	n.initChain(st, InitialHeight)
 	return n
 }
 
